@@ -76,7 +76,17 @@ func (e *c15env) bytesShapes(valid []byte, withHuge bool) [][]byte {
 }
 
 func (e *c15env) stringShapes(valid string) []string {
-	return []string{"", "junk-not-base58-0OIl", valid, shortKeyAddress(16), shortKeyAddress(33), strings.Repeat("1", 70)}
+	out := []string{"", "junk-not-base58-0OIl", valid, shortKeyAddress(16), shortKeyAddress(33), strings.Repeat("1", 70)}
+	// well formed base58 that decodes to fewer bytes than version + checksum, exactly as many, one more
+	for _, n := range []int{1, 3, 4, 5} {
+		b := make([]byte, n)
+		for i := range b {
+			b[i] = byte(7*i + n)
+		}
+		out = append(out, string(serializer.Base58Encode(b)))
+	}
+	out = append(out, "1111")
+	return out
 }
 
 func shapeName(b []byte) string {
@@ -258,6 +268,11 @@ func addrShape(a, valid string) string {
 		return "junk"
 	case strings.HasPrefix(a, "1111111111"):
 		return "ones"
+	case len(a) < 12:
+		if raw, err := serializer.Base58Decode([]byte(a)); err == nil {
+			return fmt.Sprintf("decodes-to-%d-bytes", len(raw))
+		}
+		return "short"
 	default:
 		return fmt.Sprintf("short-key(len%d)", len(a))
 	}
